@@ -553,8 +553,9 @@ func (c *Ctx) initPackage(p *ssa.Package) {
 			pending[g] = true
 		}
 	}
-	saveTol, saveSteps := c.tolerant, c.steps
+	saveTol, saveSteps, saveSpec := c.tolerant, c.steps, c.specDepth
 	c.tolerant = true
+	c.specDepth = 0 // package initialisation is not part of a speculated region
 	func() {
 		defer func() {
 			if r := recover(); r != nil {
@@ -577,6 +578,7 @@ func (c *Ctx) initPackage(p *ssa.Package) {
 	}()
 	c.tolerant = saveTol
 	c.steps = saveSteps
+	c.specDepth = saveSpec
 	_ = pending
 }
 
